@@ -42,6 +42,7 @@ def modelled : List (String × String) := [
   ("PoolRegistration", "Model/Pool.lean"), ("SingleHostAddr", "Model/Pool.lean"),
   ("SingleHostName", "Model/Pool.lean"), ("MultiHostName", "Model/Pool.lean"),
   ("AlonzoMetadata", "Model/Metadata.lean"), ("AuxiliaryData", "Model/Metadata.lean"),
+  ("ShelleyMarryMetadata", "Model/Metadata.lean"),
   ("Redeemer", "Model/WitnessCodec.lean"), ("RedeemerKey", "Model/WitnessCodec.lean"),
   ("RedeemerValue", "Model/WitnessCodec.lean"), ("RedeemerTag", "Model/WitnessCodec.lean"),
   ("VerificationKeyWitness", "Model/WitnessCodec.lean"), ("TransactionWitnessSet", "Model/WitnessCodec.lean"),
@@ -72,7 +73,7 @@ theorem accounted_classes_exist :
     ((modelled.map (·.1)) ++ implementationOnly).all (fun n => (lookup repoSchema n).isSome) = true := by decide +kernel
 
 /-- how much of the hand-written codec code has a model (a lower bound that the kernel evaluates on the live table) -/
-theorem modelled_share : 55 ≤ ((repoSchema.filter handWritten).filter (fun c => (modelled.map (·.1)).contains c.name)).length := by
+theorem modelled_share : 56 ≤ ((repoSchema.filter handWritten).filter (fun c => (modelled.map (·.1)).contains c.name)).length := by
   decide +kernel
 
 /-- non-vacuity: a table-driven class that acquires its own `from_primitive` is flagged -/
